@@ -158,3 +158,18 @@ def run(ctx: Ctx, rep: Report, tier: str):
     from rules.common import refresh_stamp_after_fetch
     rep.rule("C14.W9", "the refresh stamp is stored only after the refresh returned (C10.T8): a failed refresh does not let sync() proceed on the event's stale data", 1)
     refresh_stamp_after_fetch(ctx, rep, "C14.W9")
+    from rules.common import walk_dedupe_is_exact, parent_recorded_when_provider_knows_it
+    rep.rule("C14.W6b", "a walk event is dropped only when hash and path are exactly equal to the state's (no comparison modulo case / separators)", 1)
+    walk_dedupe_is_exact(ctx, rep, "C14.W6b")
+    rep.rule("C14.W10", "a late / missing parent-folder event is harmless: when a transfer fails because the parent is unknown at its path, the parent the provider reports "
+             "there is recorded in the state unconditionally", 1)
+    parent_recorded_when_provider_knows_it(ctx, rep, "C14.W10")
+    from rules.common import event_application_writes_through
+    rep.rule("C14.W11", "how an event becomes state: SyncState.update looks the object up on the event's side, creates an entry only when none is known, and hands every field "
+             "to update_entry, which writes each field the event carries to that side only - guarded by nothing but 'the event carries it' - stores the existence flag on "
+             "every path and marks the entry changed", 12)
+    event_application_writes_through(ctx, rep, "C14.W11")
+    from rules.common import refresh_writes_through
+    rep.rule("C14.W12", "how the provider's answer becomes state: the refresh asks info_oid for the entry's id on that side with the cache bypassed, touches that side only, "
+             "and writes type, path, size, mtime (every path) and hash (whenever it differs) of the answer to the state", 8)
+    refresh_writes_through(ctx, rep, "C14.W12")
